@@ -1,6 +1,7 @@
 package main
 
 import (
+	"go/format"
 	"os"
 	"path/filepath"
 	"sort"
@@ -174,6 +175,10 @@ func g() {
 }
 
 func init() {
+	// trailing general comments on specs that omit type and value (iota-style repetition), made canonical
+	if b, err := format.Source([]byte("package a\n\nconst (\n\tA = iota // first\n\tB /* second */\n\tC /* third */\n\tLongerName = 7 /* fourth */\n)\n\nvar (\n\tx, y int /* xy */\n\tz = 1 // z\n)\n")); err == nil {
+		sinkSources = append(sinkSources, string(b))
+	}
 	// raw strings: with an empty line inside, starting and ending with a line break, as the last
 	// thing before a blank line
 	sinkSources = append(sinkSources, "package a\n\nvar r = `a\n\nb\nc`\n\nvar s = []string{\n\t// lead\n\t`\nx\n\n\ny\n`,\n\n\t/* block */ `z\nw`,\n}\n\nfunc u() {\n\tuse(`p\n\nq`)\n\n\tuse(s)\n}\n")
